@@ -145,30 +145,16 @@ func findMediaByURL(
 				return media
 			}
 		} else {
-			// FFmpeg format
-			u1 := &base.URL{
-				Scheme:   u.Scheme,
-				Host:     u.Host,
-				Path:     path,
-				RawQuery: query,
-			}
-			if query != "" {
-				u1.RawQuery += "/" + media.Control
-			} else {
-				u1.Path += "/" + media.Control
-			}
-			if u1.String() == u.String() {
+			// compare components instead of printed URLs, which lose
+			// the raw (escaped) form of the path.
+
+			// FFmpeg format: control attribute after the query
+			if u.Path == path && u.RawQuery == query+"/"+media.Control {
 				return media
 			}
 
-			// GStreamer format
-			u2 := &base.URL{
-				Scheme:   u.Scheme,
-				Host:     u.Host,
-				Path:     path + "/" + media.Control,
-				RawQuery: query,
-			}
-			if u2.String() == u.String() {
+			// GStreamer format: control attribute after the path
+			if u.Path == path+"/"+media.Control && u.RawQuery == query {
 				return media
 			}
 		}
